@@ -15,6 +15,8 @@ type BarrierNode struct {
 	node
 	b              *pipeline.BarrierNode
 	barrierStopper map[models.GroupID]func()
+	// emitters tracks the timer goroutines of all barriers, including the ones of deleted groups.
+	emitters sync.WaitGroup
 }
 
 // Create a new  BarrierNode, which emits a barrier if data traffic has been idle for the configured amount of time.
@@ -42,6 +44,9 @@ func (n *BarrierNode) stopBarrierEmitter() {
 	for _, stopF := range n.barrierStopper {
 		stopF()
 	}
+	// The barriers of deleted groups were only signaled to stop,
+	// wait for their emitters as well before the edges are closed.
+	n.emitters.Wait()
 }
 
 func (n *BarrierNode) NewGroup(group edge.GroupInfo, first edge.PointMeta) (edge.Receiver, error) {
@@ -59,6 +64,7 @@ func (n *BarrierNode) NewGroup(group edge.GroupInfo, first edge.PointMeta) (edge
 func (n *BarrierNode) newBarrier(group edge.GroupInfo, first edge.PointMeta) (edge.ForwardReceiver, func(), error) {
 	switch {
 	case n.b.Idle > 0:
+		n.emitters.Add(1)
 		idleBarrier := newIdleBarrier(
 			first.Name(),
 			group,
@@ -66,9 +72,11 @@ func (n *BarrierNode) newBarrier(group edge.GroupInfo, first edge.PointMeta) (ed
 			n.b.Idle,
 			n.outs,
 			n.b.Delete,
+			n.emitters.Done,
 		)
 		return idleBarrier, idleBarrier.Stop, nil
 	case n.b.Period > 0:
+		n.emitters.Add(1)
 		periodicBarrier := newPeriodicBarrier(
 			first.Name(),
 			group,
@@ -76,6 +84,7 @@ func (n *BarrierNode) newBarrier(group edge.GroupInfo, first edge.PointMeta) (ed
 			n.b.Period,
 			n.outs,
 			n.b.Delete,
+			n.emitters.Done,
 		)
 		return periodicBarrier, periodicBarrier.Stop, nil
 	default:
@@ -96,9 +105,11 @@ type idleBarrier struct {
 	outs         []edge.StatsEdge
 	stopC        chan struct{}
 	resetTimerC  chan struct{}
+	// done is called when the idle handler goroutine has exited
+	done func()
 }
 
-func newIdleBarrier(name string, group edge.GroupInfo, in edge.Edge, idle time.Duration, outs []edge.StatsEdge, del bool) *idleBarrier {
+func newIdleBarrier(name string, group edge.GroupInfo, in edge.Edge, idle time.Duration, outs []edge.StatsEdge, del bool, done func()) *idleBarrier {
 	r := &idleBarrier{
 		name:         name,
 		group:        group,
@@ -111,6 +122,7 @@ func newIdleBarrier(name string, group edge.GroupInfo, in edge.Edge, idle time.D
 		stopC:        make(chan struct{}, 1),
 		resetTimerC:  make(chan struct{}, 1),
 		del:          del,
+		done:         done,
 	}
 
 	r.Init()
@@ -221,6 +233,7 @@ func collectDeleteGroup(in edge.Edge, group edge.GroupInfo) (err error) {
 }
 
 func (n *idleBarrier) idleHandler() {
+	defer n.done()
 	defer n.wg.Done()
 	idleTimer := time.NewTimer(n.idle)
 	for {
@@ -251,9 +264,11 @@ type periodicBarrier struct {
 	wg     sync.WaitGroup
 	outs   []edge.StatsEdge
 	stopC  chan struct{}
+	// done is called when the periodic emitter goroutine has exited
+	done func()
 }
 
-func newPeriodicBarrier(name string, group edge.GroupInfo, in edge.Edge, period time.Duration, outs []edge.StatsEdge, del bool) *periodicBarrier {
+func newPeriodicBarrier(name string, group edge.GroupInfo, in edge.Edge, period time.Duration, outs []edge.StatsEdge, del bool, done func()) *periodicBarrier {
 	r := &periodicBarrier{
 		name:   name,
 		group:  group,
@@ -264,6 +279,7 @@ func newPeriodicBarrier(name string, group edge.GroupInfo, in edge.Edge, period 
 		outs:   outs,
 		stopC:  make(chan struct{}),
 		del:    del,
+		done:   done,
 	}
 
 	r.Init()
@@ -279,12 +295,16 @@ func (n *periodicBarrier) Init() {
 }
 
 func (n *periodicBarrier) Stop() {
+	n.stop()
+	n.wg.Wait()
+}
+
+func (n *periodicBarrier) stop() {
 	select {
 	case <-n.stopC:
 	default:
 		close(n.stopC)
 		n.ticker.Stop()
-		n.wg.Wait()
 	}
 }
 
@@ -308,7 +328,10 @@ func (n *periodicBarrier) Barrier(m edge.BarrierMessage) (edge.Message, error) {
 }
 func (n *periodicBarrier) DeleteGroup(m edge.DeleteGroupMessage) (edge.Message, error) {
 	if m.GroupID() == n.group.ID {
-		n.Stop()
+		// Signal that the periodic barrier should stop, as the idle barrier does.
+		// Do not wait for the emitter here: it may be blocked sending a
+		// DeleteGroupMessage into the very input this goroutine is reading from.
+		n.stop()
 	}
 	return m, nil
 }
@@ -336,6 +359,7 @@ func (n *periodicBarrier) emitBarrier() error {
 }
 
 func (n *periodicBarrier) periodicEmitter() {
+	defer n.done()
 	defer n.wg.Done()
 	for {
 		select {
